@@ -505,7 +505,8 @@ func (prog Progress) walkTransforming(n datamodel.Node, s selector.Selector, fn 
 
 func contains(interest []datamodel.PathSegment, candidate datamodel.PathSegment) bool {
 	for _, i := range interest {
-		if i == candidate {
+		// (Equals, not ==: a field selector names "0" as a string while a list iterates by index.)
+		if i.Equals(candidate) {
 			return true
 		}
 	}
